@@ -2,7 +2,8 @@
   Driver for C17: runs the LOBPCG bookkeeping model (`Model/LOBPCG.lean`) at `Float`, with the operators A, B, T given as sparse
   row lists and the numeric inner solvers replaced by the outputs recorded from the real run (orthonormalised blocks, raw Ritz
   values / coefficient matrices).  Everything else — products, residuals, column norms and the convergence test, column removal,
-  `sort_epairs`, the update of X/AX/BX/D/AD/BD, `m_info` (reset at the top of `compute`), the accessors (`eigenvectors()` = X; the
+  `sort_epairs`, the update of X/AX/BX/D/AD/BD, the B-orthonormality guard `max |X' BX - I| < sqrt(eps)` in front of
+  `m_info = Success` (threshold handed over in the request), `m_info` (reset at the top of `compute`), the accessors (`eigenvectors()` = X; the
   public member `m_evectors` is reported as `coef`) — is computed by the model.
 -/
 import SpectraVerif.Driver.Util
@@ -39,6 +40,8 @@ def sparse (n : Nat) : P (Array (List (Nat × Float))) := do
 structure ItRec where
   R : Option (List (Col Float))
   D : Option (List (Col Float))
+  /-- `DenseCholesky(gramB).info() == Successful` (recorded; `true` if the iteration did not get that far) -/
+  gramOk : Bool
   rr : RROut Float
 
 def itRec (n nev : Nat) : P ItRec := do
@@ -50,7 +53,7 @@ def itRec (n nev : Nat) : P ItRec := do
   let rr ← if code == 0 then (do
       let rows ← nat; let th ← rep nev flt; let C ← coefCols rows nev; pure (RROut.ok th C))
     else if code == 1 then pure RROut.notConverged else pure RROut.threw
-  pure { R := R, D := D, rr := rr }
+  pure { R := R, D := D, gramOk := code != 4, rr := rr }
 
 def cz (x : Float) : String := if x == 0.0 then "0" else fbits x
 def showCols (tag : String) (rowsIfEmpty : Nat) (cols : List (List Float)) : String :=
@@ -68,6 +71,7 @@ def traced (K : Kern Float (Col Float)) (c : Cfg) (t : Float) : Nat → Nat → 
 
 def runCase : P String := do
   let n ← nat; let nev ← nat; let maxit ← int; let tol ← flt
+  expect "G"; let gthr ← flt        -- sqrt(NumTraits<Scalar>::epsilon()) as the real code computes it
   expect "A"; let rowsA ← sparse n
   expect "B"; let wB ← nat; let rowsB ← if wB == 1 then sparse n else pure #[]
   expect "T"; let wT ← nat; let rowsT ← if wT == 1 then sparse n else pure #[]
@@ -91,7 +95,9 @@ def runCase : P String := do
         | .resid i => (recA[i]?).bind (·.R)
         | .dir i => (recA[i]?).bind (·.D)
       eig0 := fun _ _ => E0
-      rr := fun inp => match recA[inp.iter]? with | some r => r.rr | none => .threw }
+      gramSPD := fun inp => match recA[inp.iter]? with | some r => r.gramOk | none => true
+      rr := fun inp => match recA[inp.iter]? with | some r => r.rr | none => .threw
+      borth := gramOrthOk gthr }
   let c : Cfg := { n := n, nev := nev }
   let s0 : St Float (Col Float) := construct X0
   let o := compute K c maxit tol s0
